@@ -254,7 +254,7 @@ func extractEffects(pkgs map[string]*pkgInfo) interface{} {
 }
 
 func relPos(p string) string {
-	p = strings.TrimPrefix(p, "/repo/")
+	p = strings.TrimPrefix(p, strings.TrimSuffix(repoRoot, "/")+"/")
 	// drop the column and line: facts are keyed by (package, function, lvalue)
 	if i := strings.Index(p, ":"); i >= 0 {
 		p = p[:i]
